@@ -1046,7 +1046,11 @@ def run(ctx):
     singles = all_single_ops()
     hists = [c["hist"] for c in corpus]
     n_corpus = len(hists)
-    hists += [[op] for op in singles]
+    if thorough:
+        hists += [[op] for op in singles]
+    else:
+        # quick: every non-constructor operation alone, and every second constructor/setter operation (by seed parity)
+        hists += [[op] for i, op in enumerate(singles) if op[0] != "obj" or i % 2 == ctx.seed % 2]
     reent = reentrant_histories()
     hists += reent
     # exhaustive pairs: (every call that can leave something behind) x (every call), thorough: all pairs
@@ -1058,7 +1062,7 @@ def run(ctx):
         pairs = [[a, b2] for a in contaminators[ctx.seed % 7::7] for b2 in singles[ctx.seed % 97::97]]
     hists += pairs
     n_exh = len(hists) - n_corpus
-    nrand = 6000 if thorough else 500
+    nrand = 6000 if thorough else 400
     for i in range(nrand):
         hists.append(gen_history(rng, 8 if thorough else 6, indent_ok=(i % 5 == 0), reentrant=(i % 3 == 1)))
     # ---------------------------------------------------------------- correspondence (traced runs vs model)
@@ -1163,7 +1167,8 @@ def run(ctx):
         "calls_compared_with_model": sum(len(hists[i]) for i in idx) if model_ok else 0,
         "distinct_nontrivial": nontrivial,
         "reentrant_histories": len(reent) + nrand // 3,
-        "rule": "histories = corpus (%d) + every operation of the alphabet alone, pairs contaminator x operation and the "
+        "rule": "histories = corpus (%d) + every operation of the alphabet alone (quick: every second constructor/setter operation), "
+                "pairs contaminator x operation and the "
                 "re-entrant set (fetcher / replaceUrls replacer / log handler calling back into the API on the same parser, "
                 "another parser or the module functions, depth <= 2; both flag values) "
                 "(%d, exhaustive-small part) + %d random histories of 1..%d calls (1 in 5 may switch indentSpecificities, "
